@@ -4,8 +4,19 @@ through instrument options, reader aggregation selectors, `NewView` masks and ha
 -/
 import Otel.C07.Lemmas
 import Otel.C07.Path
+import Otel.C07.Spec
 namespace Otel.C07
 open Spec
+
+private theorem validExpo_iff' (ms sc : Int) : validExpo ms sc = true ↔ (1 ≤ ms ∧ -10 ≤ sc ∧ sc ≤ 20) := by
+  unfold validExpo
+  split
+  · simp; omega
+  · split
+    · simp; omega
+    · split
+      · simp; omega
+      · simp; omega
 
 private theorem defaultBounds_valid : validBounds defaultBounds = true := by decide
 
@@ -154,6 +165,96 @@ theorem path_custom_view_unvalidated_witness :
     validExpo 160 21 = false ∧
     (resolve .counter none none .custom (some (.expo 0 5 true))).1 = .expo 0 5 true false ∧
     (resolve .gauge none none .custom (some (.hist [10, 0, 5] false))).1 = .hist [10, 0, 5] false true := by decide
+
+
+/-! ### the unvalidated path (known finding F46) -/
+
+private theorem effective_expo_valid (k : Kind) (sa : Option ACfg) (ra : ACfg)
+    (hs : ∀ ms sc n, sa = some (.expo ms sc n) → validExpo ms sc = true) (hr : ra.bad = false)
+    (ms sc : Int) (n : Bool) (he : effective k sa ra = .expo ms sc n) : validExpo ms sc = true := by
+  unfold effective at he
+  have hd : ∀ a : ACfg, (match a with
+      | .dflt => defaultSel k
+      | a => a) = .expo ms sc n → a = .expo ms sc n := by
+    intro a ha
+    cases a with
+    | dflt => cases k <;> simp [defaultSel] at ha
+    | _ => first | simpa using ha | (simp at ha)
+  have h1 := hd _ he
+  cases sa with
+  | none =>
+    simp only at h1
+    rw [h1] at hr
+    simpa [ACfg.bad] using hr
+  | some x =>
+    cases x with
+    | dflt => simp only at h1; cases k <;> simp [defaultSel] at h1
+    | expo ms' sc' n' =>
+      simp only at h1
+      injection h1 with h1 h2 h3
+      subst h1; subst h2
+      exact hs _ _ _ rfl
+    | _ => simp at h1
+
+/-- the strongest statement that holds on every path: outside finding F46 (`custom_view_unvalidated`: hand-written
+`View` function ∧ exponential parameters that `err()` rejects) the exponential aggregator is created with
+`MaxSize ≥ 1`, `−10 ≤ MaxScale ≤ 20` — also from a hand-written `View` function — and the explicit-bucket one with
+strictly increasing boundaries unless they come from a hand-written `View` function (then `newHistValues` sorts
+them: `hist_ok` holds for every raw list) -/
+theorem path_validated_partial (k : Kind) (inst : Option (List Int)) (sel : Option ACfg) (vk : ViewKind)
+    (va : Option ACfg) (hf : custom_view_unvalidated vk va = false) :
+    match (resolve k inst sel vk va).1 with
+    | .hist b _ _ => vk ≠ .custom → validBounds b = true
+    | .expo ms sc _ _ => 1 ≤ ms ∧ -10 ≤ sc ∧ sc ≤ 20
+    | _ => True := by
+  by_cases hv : vk = .custom
+  · subst hv
+    have hs : ∀ ms sc n, viewAgg .custom va = some (.expo ms sc n) → validExpo ms sc = true := by
+      intro ms sc n h
+      simp only [viewAgg] at h
+      subst h
+      simpa [custom_view_unvalidated] using hf
+    unfold resolve
+    simp only
+    cases he : effective k (viewAgg .custom va) (readerAggFor sel k inst).1 with
+    | hist b nmm => simp
+    | expo ms sc nmm =>
+      simp only
+      have := effective_expo_valid k _ _ hs (readerAggFor_not_bad sel k inst) ms sc nmm he
+      exact (validExpo_iff' ms sc).mp this
+    | _ => simp
+  · have := path_validated k inst sel vk hv va
+    revert this
+    cases (resolve k inst sel vk va).1 <;> simp
+    intro h _; exact h
+
+/-- the full statement ("every path delivers accepted exponential parameters"), refuted by F46 -/
+def path_validated_full_statement : Prop :=
+  ∀ (k : Kind) (inst : Option (List Int)) (sel : Option ACfg) (vk : ViewKind) (va : Option ACfg),
+    match (resolve k inst sel vk va).1 with
+    | .expo ms sc _ _ => 1 ≤ ms ∧ -10 ≤ sc ∧ sc ≤ 20
+    | _ => True
+
+set_option maxRecDepth 16000 in
+set_option exponentiation.threshold 2000 in
+/-- F46 witness, `MaxScale = −15` through a hand-written `View` function: the predicate applies, the aggregator is
+created with scale −15, and after recording 3 and 5 the data point reports scale −15 — the clause "a scale that
+never goes below −10" of the statement fails (`scaleOK`), while count = zero + positive + negative still holds -/
+theorem path_min_scale_witness :
+    custom_view_unvalidated .custom (some (.expo 4 (-15) false)) = true ∧
+    (resolve .histogram none none .custom (some (.expo 4 (-15) false))).1 = .expo 4 (-15) false false ∧
+    (run exactIdx 4 (-15) [some (ofInt 3), some (ofInt 5)]).1.scale = -15 ∧
+    scaleOK (-15) (run exactIdx 4 (-15) [some (ofInt 3), some (ofInt 5)]).1 = false ∧
+    countOK (run exactIdx 4 (-15) [some (ofInt 3), some (ofInt 5)]).1 = true := by decide
+
+/-- the full statement does not hold of the current tree -/
+theorem path_validated_full_statement_refuted : ¬ path_validated_full_statement := by
+  intro h
+  have := h .histogram none none .custom (some (.expo 4 (-15) false))
+  have hr : (resolve .histogram none none .custom (some (.expo 4 (-15) false))).1 = .expo 4 (-15) false false := by
+    decide
+  rw [hr] at this
+  simp at this
 
 /-! ### non-vacuity -/
 
